@@ -1,7 +1,7 @@
 """C13 - window functions keep every row in place and agree with aggregate."""
 from vp import h as H
 from harness import c12
-from harness.c12 import h_agg_int, h_agg_float, h_same_name, _pre
+from harness.c12 import h_agg_int, h_agg_float, h_same_name, h_agg_keycol, _pre
 
 H.standard_env()
 ASSUMPTIONS = list(c12.ASSUMPTIONS) + [
